@@ -124,6 +124,11 @@ def cases(tier: str) -> list[dict[str, Any]]:
         cs.append({"policy": "constant_legacy", "stop": ("attempt", n), "wait": 1, "dur": 0.0, "clause": "attempt_budget"})
         cs.append({"policy": "exp_legacy", "stop": ("attempt", n), "wait": 1, "dur": 0.0, "clause": "attempt_budget"})
     cs.append({"policy": "noseed", "stop": ("attempt", 3), "wait": 0.5, "dur": 0.2, "clause": "attempt_budget"})
+    # the failing event first waits in the step's queue (its only worker is busy): queue time is not attempt time
+    for qw in (0.6, 3.0):
+        cs.append({"stop": ("delay", 2.5), "wait": 1, "dur": 0.7, "queue_wait": qw, "clause": "delay_budget"})
+        cs.append({"stop": ("attempt", 3), "wait": 1, "dur": 0.7, "queue_wait": qw, "clause": "attempt_budget"})
+        cs.append({"stop": ("or", ("attempt", 4), ("delay", 2.5)), "wait": 1, "dur": 0.0, "queue_wait": qw, "clause": "composed_budget"})
     out = []
     for c in cs:
         for clock in CLOCKS:
@@ -148,11 +153,14 @@ def check_case(case: dict[str, Any]) -> tuple[dict[str, Any], list[tuple[str, di
         return ex
 
     obs = run_failing(build_policy(case), exc_for, dur=case["dur"], clock=tuple(case["clock"]),
-                      wall_adapter=case["wall_adapter"], with_handler=case["handler"])
+                      wall_adapter=case["wall_adapter"], with_handler=case["handler"],
+                      queue_wait=case.get("queue_wait", 0.0))
     v: list[tuple[str, dict[str, Any], str]] = []
     clock_kind = ("wall_adapter" if case["wall_adapter"] else
                   "bases_equal" if case["clock"][0] == case["clock"][1] else "bases_differ")
     w = {"clock": clock_kind, "stop": case["stop"][0], "policy": case.get("policy", "composed")}
+    if case.get("queue_wait"):
+        w["queued_first"] = True
     desc = f"case={ {k: case[k] for k in case if k not in ('clause',)} }"
     n_exec = len(obs.attempts)
     if obs.stuck or obs.capped:
